@@ -37,6 +37,7 @@ type Frame struct {
 	ranges  map[ssa.Value]*rangeState
 	recvOld *State
 	cutPhi  map[*ssa.Phi]*Term
+	cur     ssa.Instruction // instruction being executed (for flow-sensitive privacy)
 }
 
 type retEdge struct {
@@ -429,6 +430,9 @@ func (fr *Frame) enterLoop(li *loopInfo, edges []*State, preds []*ssa.BasicBlock
 	ws := fr.loopWrites(li)
 	before := st.clone()
 	fr.havocClasses(st, ws, fmt.Sprintf("loop%d", li.ordinal))
+	if len(b.Instrs) > 0 {
+		fr.restorePrivate(before, st, b.Instrs[0], li.body)
+	}
 	fr.loopFrame(li, before, st, ws)
 	// 3. assume invariants
 	for _, cl := range invs {
@@ -556,12 +560,32 @@ func (fr *Frame) typeInv(st *State, t *Term, ty types.Type) {
 // havocClasses replaces the named heap classes by fresh arrays; allocation counter only grows.
 func (fr *Frame) havocClasses(st *State, classes map[string]bool, why string) {
 	fc := fr.fc
+	if fr.cur != nil && !strings.HasPrefix(why, "loop") {
+		before := st.clone()
+		defer fr.restorePrivate(before, st, fr.cur, nil)
+	}
 	var ks, havocked []string
 	for k := range classes {
 		ks = append(ks, k)
 	}
 	sort.Strings(ks)
 	for _, k := range ks {
+		if strings.HasPrefix(k, freshOnly) {
+			// written only inside objects the callee allocated itself: objects that existed
+			// before the call keep their contents
+			base := k[len(freshOnly):]
+			s, ok := fc.heapSorts[base]
+			if !ok || classes[base] {
+				continue
+			}
+			old := fc.get(st, base, s)
+			nh := fc.fresh("hvf."+why+"."+base, s)
+			r := BVar("r", SRef)
+			fc.assume(True, Forall([]*Term{r}, Implies(Op("<=", SBool, r, st.alloc), Eq(Select(nh, r), Select(old, r))), []*Term{Select(nh, r)}))
+			st.heap[base] = nh
+			havocked = append(havocked, base)
+			continue
+		}
 		s, ok := fc.heapSorts[k]
 		if !ok {
 			continue // class never touched by verified code: nothing to forget
